@@ -6,8 +6,15 @@ sid = sys.argv[1]
 d = f"/verif/seeded/{sid}"
 meta = json.load(open(f"{d}/meta.json"))
 pids = sys.argv[2:] or [meta["property"]]
-assert subprocess.run(["git", "-C", "/repo", "status", "--porcelain"], capture_output=True, text=True).stdout.strip() == "", "/repo not clean"
-subprocess.run(["git", "-C", "/repo", "apply", f"{d}/patch.diff"], check=True)
+# TARGET: /repo itself (default) or, with SEED_SCRATCH=1, a scratch worktree of /repo's HEAD (used while other work reads /repo)
+REPO = "/repo"
+if os.environ.get("SEED_SCRATCH"):
+    REPO = os.environ.get("SEED_SCRATCH_DIR", "/tmp/rw/main")
+    if not os.path.isdir(REPO):
+        subprocess.run(["git", "-C", "/repo", "worktree", "add", "-q", "--detach", REPO, "HEAD"], check=True)
+    subprocess.run(["git", "-C", REPO, "checkout", "-q", "--detach", subprocess.run(["git", "-C", "/repo", "rev-parse", "HEAD"], capture_output=True, text=True).stdout.strip()], check=True)
+assert subprocess.run(["git", "-C", REPO, "status", "--porcelain"], capture_output=True, text=True).stdout.strip() == "", f"{REPO} not clean"
+subprocess.run(["git", "-C", REPO, "apply", f"{d}/patch.diff"], check=True)
 res = {}
 import shutil
 for pid in pids:          # evidence written while a seeded change is applied must not replace the committed evidence
@@ -15,15 +22,17 @@ for pid in pids:          # evidence written while a seeded change is applied mu
         shutil.copy(f"/verif/evidence/{pid}.json", f"/tmp/evidence_backup_{pid}.json")
 try:
     for pid in pids:
-        p = subprocess.run(["/verif/check", pid, "--tier", "quick"], capture_output=True, text=True, cwd="/verif")
+        p = subprocess.run(["/verif/check", pid, "--tier", "quick"], capture_output=True, text=True, cwd="/verif", env=dict(os.environ, CE_REPO=REPO))
         lines = [l for l in p.stdout.splitlines() if l.startswith(("VIOLATION", "KNOWN-FINDING", "["))]
         res[pid] = {"rc": p.returncode, "lines": lines[:4]}
         print(pid, p.returncode, *lines[:4], sep="\n  ")
 finally:
-    subprocess.run(["git", "-C", "/repo", "checkout", "--", "."], check=True)
+    subprocess.run(["git", "-C", REPO, "checkout", "--", "."], check=True)
     for pid in pids:
         if os.path.exists(f"/tmp/evidence_backup_{pid}.json"):
             shutil.move(f"/tmp/evidence_backup_{pid}.json", f"/verif/evidence/{pid}.json")
+for v in res.values():
+    v["target"] = REPO
 meta.setdefault("detection", {}).update(res)
 meta["detected"] = any(v["rc"] == 1 for v in meta["detection"].values())
 json.dump(meta, open(f"{d}/meta.json", "w"), indent=1)
